@@ -106,7 +106,10 @@ def run_case(case, ctx):
             tail = data + suffix
             variants = []
             # buffer kinds have no position: they carry the bytes from p onward
-            for kind, mk in (("bytes", lambda: bytes(tail)), ("bytearray", lambda: bytearray(tail)), ("memoryview", lambda: memoryview(tail))):
+            kinds = [("bytes", lambda: bytes(tail)), ("bytearray", lambda: bytearray(tail)), ("memoryview", lambda: memoryview(tail))]
+            if len(tail) % 2 == 0 and tail:
+                kinds.append(("memoryview-of-uint16-items", lambda: memoryview(bytes(tail)).cast("H")))
+            for kind, mk in kinds:
                 for form in ("T(x)", "T.read(x)", "T.reads(x)", "cs.read(name,x)"):
                     variants.append((kind, form, mk, None))
             if pi == si:  # streams: full prefix+data+suffix, positioned at p
@@ -310,7 +313,13 @@ def _run_leaf(case, ctx):
     whole = prefix + val + suffix
     n = 0
     variants = []
-    for kind, mk in (("bytes", lambda: bytes(val + suffix)), ("bytearray", lambda: bytearray(val + suffix)), ("memoryview", lambda: memoryview(val + suffix))):
+    bufkinds = [("bytes", lambda: bytes(val + suffix)), ("bytearray", lambda: bytearray(val + suffix)), ("memoryview", lambda: memoryview(val + suffix))]
+    if t0 and not tn.endswith("[]") and "leb" not in tn:
+        # a view of 2- / 4-byte items holding exactly 2x / 4x the type's size: its len() equals len(T) although it is longer
+        bufkinds.append(("memoryview-of-uint16-items(len == size)", lambda: memoryview(val + data[t0 : 2 * t0].ljust(t0, b"\x00")).cast("H")))
+        if t0 % 1 == 0:
+            bufkinds.append(("memoryview-of-uint32-items(len == size)", lambda: memoryview((val + data[t0:] + bytes(4 * t0))[: 4 * t0]).cast("I")))
+    for kind, mk in bufkinds:
         for form in ("T(x)", "T.read(x)", "T.reads(x)") + (("cs.read(name,x)",) if not dim else ()):
             variants.append((kind, form, mk, False))
     for kind, mk in (("BytesIO", lambda: io.BytesIO(whole)), ("minimal-filelike", lambda: MinimalStream(whole, 0))):
